@@ -207,6 +207,10 @@ def impl_regex(rx, inp, bytes_mode=False, chunks=None):
     m = _MACHINES.get(key)
     if m is None:
         try:
+            if sum(map(ord, rx)) % 3 == 0:
+                # for a third of the expressions a machine that DROPS its input is built first from the very same expression: machines are
+                # independent of one another, whatever was built before
+                (A.regex_bytes if bytes_mode else A.regex)(initial=rx, context='r', terminal=True, regex_states=A.state_drop)
             m = (A.regex_bytes if bytes_mode else A.regex)(initial=rx, context='r', terminal=True)
         except Exception as e:
             return ('build', type(e).__name__)
